@@ -50,25 +50,25 @@ GAP_CAP = 4
 
 # every version of a file has another page signature (its own argument name): what is remembered about a template
 # under its URI or module name - argument lists, signatures - must not survive a modification of the file
-RARGS = {"a_A": "A", "a_B": "B"}
+RARGS = {"a_A": "A", "a_B": "B", "b_A": "A", "b_B": "B"}
 
 
 def content(d, u, v):
     if v == "X":
         return "${"
-    return "<%%page args=\"a_%s='none'\"/>%s|d%d|%s|${1+1}|${a_%s}" % (v, u, d, v, v)
+    return "<%%page args=\"a_%s='none'\"/><%%def name=\"f(b_%s='none')\">f|${b_%s}</%%def>%s|d%d|%s|${1+1}|${a_%s}" % (v, v, v, u, d, v, v)
 
 
 def marker(d, u, v):
-    return "%s|d%d|%s|2|%s" % (u, d, v, v)
+    return "%s|d%d|%s|2|%s#f|%s" % (u, d, v, v, v)
 
 
 def put_content(u, v):
-    return "<%%page args=\"a_%s='none'\"/>put|%s|%s|${1+1}|${a_%s}" % (v, u, v, v)
+    return "<%%page args=\"a_%s='none'\"/><%%def name=\"f(b_%s='none')\">f|${b_%s}</%%def>put|%s|%s|${1+1}|${a_%s}" % (v, v, v, u, v, v)
 
 
 def put_marker(u, v):
-    return "put|%s|%s|2|%s" % (u, v, v)
+    return "put|%s|%s|2|%s#f|%s" % (u, v, v, v)
 
 
 def configs(tier):
@@ -507,7 +507,7 @@ class World:
         # invariant: the template renders the version the model says it holds
         if obj is not None:
             try:
-                got = obj.render(**RARGS)
+                got = obj.render(**RARGS) + "#" + obj.get_def("f").render(**RARGS)
             except BaseException as ex:  # noqa
                 got = "EXC %s" % type(ex).__name__
             if got != exp_marker:
@@ -606,7 +606,7 @@ class World:
 
 def _render_of(t):
     try:
-        return t.render(**RARGS)
+        return t.render(**RARGS) + "#" + t.get_def("f").render(**RARGS)
     except BaseException as ex:  # noqa
         return "EXC %s" % type(ex).__name__
 
